@@ -21,18 +21,21 @@ func properties() []Property {
 	return []Property{
 		{ID: "C01", Assumptions: []string{aSummaries, aModels, aE1, aE2, "receiver strings: both spellings of the orbiter address, a mixed-case spelling, other accounts, the blocked dust collector, empty, malformed, and an arbitrary 48-byte string; an arbitrary string other than a spelling of a known account is treated as undecodable", "'all prior histories' = arbitrary prior balances of the orbiter account, arbitrary escrow balance, arbitrary pause / parameter configuration (one inductive step)"},
 			Harnesses: []HarnessSpec{
-				{Name: "H_C01_receivers", Profile: "bit", Quick: b("rcvKinds", 8, "denomKinds", 4, "memoKinds", 2, "amountKinds", 3, "intKinds", 1, "fees", 0, "priors", 1, "pauses", 0, "ptMax", 0, "feeRcpKinds", 1, "faults", 0), Covers: []string{"error-ack", "success-ack", "success-ack-to-orbiter", "success-ack-to-someone-else"}},
-				{Name: "H_C01_payloads", Profile: "bit", Quick: b("rcvKinds", 2, "denomKinds", 1, "memoKinds", 6, "amountKinds", 1, "intKinds", 5, "fees", 1, "priors", 1, "pauses", 0, "ptMax", 0, "feeRcpKinds", 3, "faults", 0), Thorough: b("rcvKinds", 2, "denomKinds", 1, "memoKinds", 6, "amountKinds", 1, "intKinds", 5, "fees", 1, "priors", 1, "pauses", 1, "ptMax", 1, "feeRcpKinds", 3, "faults", 0), Covers: []string{"error-ack", "success-ack", "success-ack-to-orbiter"}},
-				{Name: "H_C01_faults", Profile: "bit", Quick: b("rcvKinds", 2, "denomKinds", 1, "memoKinds", 1, "amountKinds", 1, "intKinds", 2, "fees", 1, "priors", 1, "pauses", 0, "ptMax", 0, "feeRcpKinds", 2, "faults", 1), Covers: []string{"error-ack", "success-ack", "success-ack-to-orbiter"}},
+				{Name: "H_C01_receivers", Profile: "bit", Quick: b("rcvKinds", 8, "denomKinds", 4, "memoKinds", 2, "amountKinds", 3, "intKinds", 1, "fees", 0, "priors", 1, "pauses", 0, "ptMax", 0, "feeRcpKinds", 1, "faults", 0, "earlier", 0), Covers: []string{"error-ack", "success-ack", "success-ack-to-orbiter", "success-ack-to-someone-else"}},
+				{Name: "H_C01_payloads", Profile: "bit", Quick: b("rcvKinds", 2, "denomKinds", 1, "memoKinds", 6, "amountKinds", 1, "intKinds", 5, "fees", 1, "priors", 1, "pauses", 0, "ptMax", 0, "feeRcpKinds", 3, "faults", 0, "earlier", 0), Thorough: b("rcvKinds", 2, "denomKinds", 1, "memoKinds", 6, "amountKinds", 1, "intKinds", 5, "fees", 1, "priors", 1, "pauses", 1, "ptMax", 1, "feeRcpKinds", 3, "faults", 0, "earlier", 0), Covers: []string{"error-ack", "success-ack", "success-ack-to-orbiter"}},
+				{Name: "H_C01_faults", Profile: "bit", Quick: b("rcvKinds", 2, "denomKinds", 1, "memoKinds", 1, "amountKinds", 1, "intKinds", 2, "fees", 1, "priors", 1, "pauses", 0, "ptMax", 0, "feeRcpKinds", 2, "faults", 1, "earlier", 0), Covers: []string{"error-ack", "success-ack", "success-ack-to-orbiter"}},
+				{Name: "H_C01_encodings", Profile: "bit", Covers: []string{"refused", "success"}},
+				{Name: "H_C01_sequence", Profile: "bit", Quick: b("rcvKinds", 2, "denomKinds", 1, "memoKinds", 2, "amountKinds", 1, "intKinds", 2, "fees", 1, "priors", 1, "pauses", 0, "ptMax", 0, "feeRcpKinds", 1, "faults", 0, "earlier", 1), Covers: []string{"error-ack", "success-ack-to-orbiter", "after-an-earlier-transfer"}},
 			}},
 		{ID: "C02", Assumptions: []string{aSummaries, aModels, aE1, aE5, "ledger = ten tracked accounts (orbiter, dust collector, users, fee recipients, escrow, CCTP / warp / transfer module accounts) x four denoms; 'interleavings with other transfers' are sequential histories, covered by starting from an arbitrary ledger"},
 			Harnesses: []HarnessSpec{
-				{Name: "H_C02_conservation", Profile: "bit", Quick: b("rcvKinds", 2, "denomKinds", 1, "memoKinds", 1, "amountKinds", 1, "intKinds", 2, "fees", 2, "priors", 1, "pauses", 0, "ptMax", 0, "feeRcpKinds", 1, "faults", 0), Thorough: b("rcvKinds", 2, "denomKinds", 1, "memoKinds", 1, "amountKinds", 1, "intKinds", 4, "fees", 2, "priors", 1, "pauses", 0, "ptMax", 0, "feeRcpKinds", 2, "faults", 0), Covers: []string{"successful-orbiter-transfer", "not-a-successful-orbiter-transfer"}},
-				{Name: "H_C02_faults", Profile: "bit", Quick: b("rcvKinds", 1, "denomKinds", 1, "memoKinds", 1, "amountKinds", 1, "intKinds", 1, "fees", 1, "priors", 1, "pauses", 0, "ptMax", 0, "feeRcpKinds", 1, "faults", 1), Covers: []string{"successful-orbiter-transfer", "not-a-successful-orbiter-transfer"}},
+				{Name: "H_C02_conservation", Profile: "bit", Quick: b("rcvKinds", 2, "denomKinds", 1, "memoKinds", 1, "amountKinds", 1, "intKinds", 2, "fees", 2, "priors", 1, "pauses", 0, "ptMax", 0, "feeRcpKinds", 1, "faults", 0, "earlier", 0), Thorough: b("rcvKinds", 2, "denomKinds", 1, "memoKinds", 1, "amountKinds", 1, "intKinds", 4, "fees", 2, "priors", 1, "pauses", 0, "ptMax", 0, "feeRcpKinds", 2, "faults", 0, "earlier", 0), Covers: []string{"successful-orbiter-transfer", "not-a-successful-orbiter-transfer"}},
+				{Name: "H_C02_faults", Profile: "bit", Quick: b("rcvKinds", 1, "denomKinds", 1, "memoKinds", 1, "amountKinds", 1, "intKinds", 1, "fees", 1, "priors", 1, "pauses", 0, "ptMax", 0, "feeRcpKinds", 1, "faults", 1, "earlier", 0), Covers: []string{"successful-orbiter-transfer", "not-a-successful-orbiter-transfer"}},
+				{Name: "H_C02_sequence", Profile: "bit", Quick: b("rcvKinds", 1, "denomKinds", 1, "memoKinds", 1, "amountKinds", 1, "intKinds", 2, "fees", 1, "priors", 1, "pauses", 0, "ptMax", 0, "feeRcpKinds", 1, "faults", 0, "earlier", 1), Covers: []string{"successful-orbiter-transfer", "after-an-earlier-transfer"}},
 			}},
 		{ID: "C03", Assumptions: []string{aSummaries, aModels, aE1, "every fallible environment call (each bank send, the sweep, the ICS-20 application, the token query, each bridge request, each event emission) draws an independent failure bit, so all subsets of failures are covered; naturally occurring failures are the same bits of the respective model", "statistics failures are the documented exception (collections writes do not fail in the model)"},
 			Harnesses: []HarnessSpec{
-				{Name: "H_C03_faults", Profile: "bit", Quick: b("rcvKinds", 1, "denomKinds", 1, "memoKinds", 1, "amountKinds", 1, "intKinds", 2, "fees", 1, "priors", 1, "pauses", 0, "ptMax", 0, "feeRcpKinds", 2, "faults", 0), Thorough: b("rcvKinds", 2, "denomKinds", 1, "memoKinds", 1, "amountKinds", 1, "intKinds", 2, "fees", 2, "priors", 1, "pauses", 0, "ptMax", 0, "feeRcpKinds", 2, "faults", 0), Covers: []string{"some-step-failed", "error-ack", "success-ack", "success-ack-to-orbiter"}},
+				{Name: "H_C03_faults", Profile: "bit", Quick: b("rcvKinds", 1, "denomKinds", 1, "memoKinds", 1, "amountKinds", 1, "intKinds", 2, "fees", 1, "priors", 1, "pauses", 0, "ptMax", 0, "feeRcpKinds", 2, "faults", 0, "earlier", 0), Thorough: b("rcvKinds", 2, "denomKinds", 1, "memoKinds", 1, "amountKinds", 1, "intKinds", 2, "fees", 2, "priors", 1, "pauses", 0, "ptMax", 0, "feeRcpKinds", 2, "faults", 0, "earlier", 0), Covers: []string{"some-step-failed", "error-ack", "success-ack", "success-ack-to-orbiter"}},
 			}},
 		{ID: "C05", Assumptions: []string{aSummaries, aModels, "the transfer attributes are those after arbitrary pre-actions: source amount A, destination amount D with 0 < D <= A (both symbolic), orbiter balance exactly D", "byte fields are arbitrary byte slices of 0..bytes bytes (bytes = 33 = one past the only length Hyperlane accepts); hook metadata from {empty, 0x, valid hex, bad hex, no prefix, odd length}", "depinject.go wiring is outside the claim (the harness mirrors it with the exported constructors)"},
 			Harnesses: []HarnessSpec{
@@ -42,6 +45,7 @@ func properties() []Property {
 				{Name: "H_C05_mismatch", Profile: "bit", Covers: []string{"identifier-and-attributes-agree", "mismatch"}},
 				{Name: "H_C05_actions", Profile: "bit", Covers: []string{"fee-action-runs", "action-refused"}},
 				{Name: "H_C05_replace", Profile: "bit", Quick: b("blob", 8), Thorough: b("blob", 64), Covers: []string{"cctp-refused", "replaced"}},
+				{Name: "H_C05_sequence", Profile: "bit", Covers: []string{"first-forwarded", "second-forwarded"}},
 			}},
 		{ID: "C06", Assumptions: []string{aSummaries, aModels, "registered action controllers: the real fee controller and a denomination-changing harness controller under ACTION_SWAP (records the coin it sees, replaces it by an arbitrary coin of another denom and gives the orbiter account that coin)", "amounts < 10^60, bps in [1, 10000]; internal route (the only one that carries any denomination)"},
 			Harnesses: []HarnessSpec{
@@ -49,14 +53,15 @@ func properties() []Property {
 			}},
 		{ID: "C07", Assumptions: []string{aSummaries, aModels, aE2, "events/state of the wrapped application itself are identical because it is the same single call with the same arguments on the same context (the application's internals are a model)", "acknowledgement, timeout, channel-close/open-confirm, SendPacket and GetAppVersion are driven on the middleware value with recording wrapped objects (H_C07_callbacks); the remaining channel handshake and upgrade callbacks are promoted from the same embedded interfaces and are not driven"},
 			Harnesses: []HarnessSpec{
-				{Name: "H_C07_packets", Profile: "bit", Quick: b("rcvKinds", 8, "denomKinds", 4, "memoKinds", 2, "amountKinds", 3, "intKinds", 1, "fees", 0, "priors", 1, "pauses", 0, "ptMax", 0, "garbage", 1, "feeRcpKinds", 1, "faults", 0), Covers: []string{"not-for-orbiter"}},
+				{Name: "H_C07_packets", Profile: "bit", Quick: b("rcvKinds", 8, "denomKinds", 4, "memoKinds", 2, "amountKinds", 3, "intKinds", 1, "fees", 0, "priors", 1, "pauses", 0, "ptMax", 0, "garbage", 1, "feeRcpKinds", 1, "faults", 0, "earlier", 0), Covers: []string{"not-for-orbiter"}},
 				{Name: "H_C07_channels", Profile: "bit", Covers: []string{"not-for-orbiter"}},
 				{Name: "H_C07_callbacks", Profile: "bit", Covers: []string{"callback-called"}},
-				{Name: "H_C07_payloads", Profile: "bit", Quick: b("rcvKinds", 4, "denomKinds", 1, "memoKinds", 6, "amountKinds", 1, "intKinds", 2, "fees", 1, "priors", 1, "pauses", 1, "ptMax", 1, "garbage", 0, "feeRcpKinds", 1, "faults", 0), Covers: []string{"not-for-orbiter"}},
+				{Name: "H_C07_sequence", Profile: "bit", Covers: []string{"not-for-orbiter", "after-an-orbiter-transfer"}},
+				{Name: "H_C07_payloads", Profile: "bit", Quick: b("rcvKinds", 4, "denomKinds", 1, "memoKinds", 6, "amountKinds", 1, "intKinds", 2, "fees", 1, "priors", 1, "pauses", 1, "ptMax", 1, "garbage", 0, "feeRcpKinds", 1, "faults", 0, "earlier", 0), Covers: []string{"not-for-orbiter"}},
 			}},
 		{ID: "C11", Assumptions: []string{aSummaries, aModels, aE1, "paired executions: the same drawn packet on two freshly wired modules whose states differ only in the coins already on the orbiter account (arbitrary amounts in the transferred denom and one other denom vs. none)", "bank send restrictions of other modules on the sweep are outside the claim"},
 			Harnesses: []HarnessSpec{
-				{Name: "H_C11_priors", Profile: "bit", Quick: b("rcvKinds", 2, "denomKinds", 1, "memoKinds", 1, "amountKinds", 1, "intKinds", 2, "fees", 1, "priors", 1, "pauses", 0, "ptMax", 1, "feeRcpKinds", 1, "faults", 0), Thorough: b("rcvKinds", 2, "denomKinds", 2, "memoKinds", 1, "amountKinds", 1, "intKinds", 2, "fees", 2, "priors", 1, "pauses", 0, "ptMax", 1, "feeRcpKinds", 1, "faults", 0), Covers: []string{"both-succeed", "both-refused"}},
+				{Name: "H_C11_priors", Profile: "bit", Quick: b("rcvKinds", 2, "denomKinds", 1, "memoKinds", 1, "amountKinds", 1, "intKinds", 2, "fees", 1, "priors", 1, "pauses", 0, "ptMax", 1, "feeRcpKinds", 1, "faults", 0, "earlier", 0), Thorough: b("rcvKinds", 2, "denomKinds", 2, "memoKinds", 1, "amountKinds", 1, "intKinds", 2, "fees", 2, "priors", 1, "pauses", 0, "ptMax", 1, "feeRcpKinds", 1, "faults", 0, "earlier", 0), Covers: []string{"both-succeed", "both-refused"}},
 			}},
 		{ID: "C04", Assumptions: []string{aSummaries, aModels, "math.NewIntFromString on a concrete string is computed with math/big (SetString base 0, 256-bit limit) exactly as cosmossdk.io/math does; fixed fee amounts are the decimal rendering of an arbitrary symbolic Int or one of a few non-numbers", "fee recipients are concrete strings (two valid accounts, possibly repeated, and malformed ones): bech32 decoding itself is the SDK's"},
 			Harnesses: []HarnessSpec{
@@ -68,7 +73,7 @@ func properties() []Property {
 			Harnesses: []HarnessSpec{
 				{Name: "H_C08_step", Profile: "bit", Quick: b("strlen", 1, "prePairs", 1, "batch", 2), Thorough: b("strlen", 2, "prePairs", 1, "batch", 2), Covers: []string{"pre-state-built", "message-accepted", "message-refused"}, TimeoutQuick: 240},
 				{Name: "H_C08_enforce", Profile: "bit", Quick: b("strlen", 2, "prePairs", 1), Thorough: b("strlen", 3, "prePairs", 2), Covers: []string{"pre-state-built", "probe-paused", "probe-not-paused"}},
-				{Name: "H_C08_history", Profile: "bit", Quick: b("strlen", 1, "steps", 2, "batch", 1), Thorough: b("strlen", 1, "steps", 3, "batch", 2), Covers: []string{"message-accepted", "message-refused", "probe-paused", "probe-not-paused"}, TimeoutQuick: 240},
+				{Name: "H_C08_history", Profile: "bit", Quick: b("strlen", 1, "steps", 2, "batch", 1), Thorough: b("strlen", 1, "steps", 2, "batch", 2), Covers: []string{"message-accepted", "message-refused", "probe-paused", "probe-not-paused"}, TimeoutQuick: 240},
 				{Name: "H_C08_batch_limit", Profile: "bit"},
 			}},
 		{ID: "C09", Assumptions: []string{aSummaries, aModels, aE1, "pre-state: any subset of {FEE, SWAP} paused; a recording stub controller is registered under ACTION_SWAP so that both identifiers are routable"},
@@ -81,7 +86,7 @@ func properties() []Property {
 			}},
 		{ID: "C12", Assumptions: []string{aSummaries, aModels, aE3, "one inductive step from arbitrary pre-existing statistics: up to preEntries amount entries and preEntries count entries whose keys coincide with the new transfer's keys or differ in one component (source, destination protocol, destination counterparty, denom)", "pre-state invariant (bound): totals < 10^70, amounts < 10^60, counts < 2^64-1 — the statistics overflow paths (deliberately swallowed by DispatchPayload) are outside the claim", "denomination change is exercised with a harness controller registered under ACTION_SWAP on the internal route"},
 			Harnesses: []HarnessSpec{
-				{Name: "H_C12_step", Profile: "bit", Quick: b("preEntries", 1), Thorough: b("preEntries", 2), Covers: []string{"pre-state-built", "transfer-refused", "transfer-succeeded"}},
+				{Name: "H_C12_step", Profile: "bit", Quick: b("preEntries", 1), Thorough: b("preEntries", 2), Covers: []string{"pre-state-built", "transfer-refused", "transfer-succeeded", "transaction-aborted"}},
 			}},
 		{ID: "C13", Assumptions: []string{aSummaries, aModels, aE3, "ledgers of up to entries entries written through the component's own setters (arbitrary totals incl. one-sided and zero entries, two sources, five destinations, two denoms), plus one entry for EVERY uint32 destination domain for the index-key derivation", "listings run on the CollectionPaginate summary with the REAL option and transform closures and the real index closures; page limits, offsets, next-keys, reverse and count-total are library code (query.CollectionPaginate / collections iterators) and are NOT decided — only the unpaged request (default page size 100) is"},
 			Harnesses: []HarnessSpec{
@@ -96,6 +101,7 @@ func properties() []Property {
 				{Name: "H_C14_forwarding_shapes", Profile: "bit", Quick: b("actionShapes", 0, "fwdShapes", 1, "actions", 0, "feeEntries", 0, "bytes", 33, "symBytes", 0, "metaKinds", 4), Thorough: b("actionShapes", 0, "fwdShapes", 1, "actions", 0, "feeEntries", 0, "bytes", 33, "symBytes", 1, "metaKinds", 6), Covers: []string{"malformed-payload-refused", "payload-validated", "processed", "dispatcher-refused", "dispatched"}, TimeoutQuick: 300},
 				{Name: "H_C14_packet_envelope", Profile: "bit", Quick: b("envelope", 1, "fields", 0, "chanlen", 10, "segments", 0, "seglen", 0), Thorough: b("envelope", 1, "fields", 0, "chanlen", 12, "segments", 0, "seglen", 0), Covers: []string{"success-ack", "error-ack"}, TimeoutQuick: 300},
 				{Name: "H_C14_packet_fields", Profile: "bit", Quick: b("envelope", 0, "fields", 1, "chanlen", 0, "segments", 3, "seglen", 1), Thorough: b("envelope", 0, "fields", 1, "chanlen", 0, "segments", 4, "seglen", 1), Covers: []string{"success-ack", "error-ack"}, TimeoutQuick: 300},
+				{Name: "H_C14_memo_documents", Profile: "bit", Covers: []string{"success-ack", "error-ack"}},
 			}},
 		{ID: "C15", Assumptions: []string{aSummaries, "the JSON / protobuf codecs are summarised as an abstract encode / decode pair over blobs with decode(encode(x)) = x; concrete documents (not JSON, null, arrays, missing / null / scalar orbiter key, two root keys) go through the real encoding/json pre-check; unknown-field rejection, the type-URL registry, enum spelling and duplicated JSON keys are behaviour of ProtoCodec / jsonpb and are NOT decided", "the round trip and purity assertions are additionally executed natively with the real codec on every replayed path (trace validation)"},
 			Harnesses: []HarnessSpec{
@@ -107,7 +113,7 @@ func properties() []Property {
 			Harnesses: []HarnessSpec{
 				{Name: "H_C16_denom", Profile: "bit", Quick: b("segments", 5, "seglen", 1), Thorough: b("segments", 6, "seglen", 1), Covers: []string{"accepted", "refused", "refused-not-returning"}, TimeoutThorough: 2400},
 				{Name: "H_C16_ports", Profile: "bit", Covers: []string{"accepted", "refused"}},
-				{Name: "H_C16_credit", Profile: "bit", Quick: b("rcvKinds", 2, "denomKinds", 4, "memoKinds", 1, "amountKinds", 1, "intKinds", 1, "fees", 1, "priors", 0, "pauses", 0, "ptMax", 0, "feeRcpKinds", 1, "faults", 0), Covers: []string{"accepted", "not-accepted"}},
+				{Name: "H_C16_credit", Profile: "bit", Quick: b("rcvKinds", 2, "denomKinds", 4, "memoKinds", 1, "amountKinds", 1, "intKinds", 1, "fees", 1, "priors", 0, "pauses", 0, "ptMax", 0, "feeRcpKinds", 1, "faults", 0, "earlier", 0), Covers: []string{"accepted", "not-accepted"}},
 			}},
 		{ID: "C17", Assumptions: []string{aSummaries, aModels, aE3, "the collections summary includes the key codec's refusal of 0x00 in non-terminal string key components", "genesis lists of at most list / entries elements, counterparty strings of at most strlen bytes, protocol / action ids any int32; JSON (un)marshalling of the genesis document and module.go glue are outside the claim"},
 			Harnesses: []HarnessSpec{
